@@ -58,6 +58,11 @@ POOL = {
     "plain": b"X-Plain: v",
 }
 POOL_ORDER = list(POOL)
+# every byte value inside a field name (":" CR LF excluded: they change the line structure instead);
+# used as single-header cases only, not in the subset product
+NAME_BYTES = ["nb%02x" % b for b in range(256) if b not in (0x3A, 0x0A, 0x0D)]
+for _n in NAME_BYTES:
+    POOL[_n] = b"X" + bytes([int(_n[2:], 16)]) + b"Y: 1"
 
 BODIES = {
     "none": b"",
@@ -113,6 +118,9 @@ def request_cases(maxk, full):
             yield {**base, "hs": list(hs), "body": body, "edit": "none", "mode": "reverse:http://example.com:80/", "form": "origin"}
             yield {**base, "hs": list(hs), "body": body, "edit": "stream"}
     yield {**base, "hs": [], "body": "none", "edit": "none", "method": b"OPTIONS", "form": "star", "mode": "reverse:http://example.com:80/"}
+    for nb in NAME_BYTES:
+        yield {**base, "hs": [nb], "body": "none", "edit": "none", "method": b"GET"}
+        yield {**base, "hs": [nb, "cl3"], "body": "abc", "edit": "none"}
 
 
 RESP_STATUS = {"200": b"200 OK", "204": b"204 No Content", "304": b"304 Not Modified", "100+200": b"100 Continue", "404": b"404 Not Found", "101": b"101 Switching Protocols"}
@@ -149,6 +157,8 @@ def response_cases(maxk, full):
             for edit in ("header", "content", "status", "stream"):
                 yield {"dir": "resp", "method": b"GET", "status": "200", "hs": list(hs), "le": b"\r\n", "body": body, "eof": True, "edit": edit}
             yield {"dir": "resp", "method": b"GET", "status": "200", "hs": list(hs), "le": b"\n", "body": body, "eof": True, "edit": "none"}
+    for nb in NAME_BYTES:
+        yield {"dir": "resp", "method": b"GET", "status": "200", "hs": [nb, "cl3"], "le": b"\r\n", "body": "abc", "eof": True, "edit": "none"}
 
 
 def make_policy(case):
